@@ -89,7 +89,7 @@ inline Hdr gen_header(const std::string &name, const std::string &core_value, co
     h.lines.push_back(first);
     if (allow_fold && o.folding && rcx::chance(1, 5)) {
         int n = rcx::range(1, 2);
-        for (int i = 0; i < n; i++) { std::string lws = rcx::coin() ? " " : "\t"; if (rcx::chance(1, 4)) lws += rcx::coin() ? " " : "\t"; h.lines.push_back(lws + gen_value(1, 8, colon_in_continuation)); }
+        for (int i = 0; i < n; i++) { std::string lws = rcx::coin() ? " " : "\t"; if (rcx::chance(1, 4)) lws += rcx::coin() ? " " : "\t"; h.lines.push_back(lws + std::string(1, (char)('k' + rcx::range(0, 5))) + gen_value(0, 7, colon_in_continuation)); } // never whitespace-only: such a line ends the header block for some personalities
     }
     return h;
 }
